@@ -22,6 +22,7 @@ import compat  # noqa: F401
 import core
 import stub_sim
 import mgr
+import poke
 import wire
 from oracle import scripted, Tape
 from stub_sim import StubSim, script_to_wire, encode_obs, decode_obs
@@ -138,6 +139,7 @@ class World:
                 self.w, self.err, self.uncovered = None, "crash", []
             else:
                 self.uncovered = [self.sim.idx[k] for k in keys[len(groups):]]
+                poke.rejected(self.w, [script, groups])
                 self.outer_ids = keys
                 self.oidx = {k: i for i, k in enumerate(keys)}
         declared, truthy = [], []
